@@ -168,7 +168,38 @@ func c18Cleanup(c *Ctx) *RuleResult {
 	r := &RuleResult{Rule: "C18.cleanup-hold", Floor: 12,
 		Doc: "every cleanup function returned by getOpenedLeaf* is invoked exactly once on every path after a successful call; every hold() on a client record is matched by exactly one release() on every path of the same function, or handed over: to the transaction object (released in complete()) or to a returned cleanup closure that releases it"}
 	p := c.P
+	// hold wrappers: methods that only take the hold on behalf of their caller
+	//   func (x *T) suspendGC(...) { ...; x.a.b.hold(p) }   (no release anywhere in the body)
+	type holdWrapper struct{ recv, held string }
+	wrappers := map[*types.Func]holdWrapper{}
 	for _, u := range p.UnitsIn(nfsPkg) {
+		if u.Decl.Recv == nil || len(u.Decl.Recv.List[0].Names) == 0 || u.Fn.Type().(*types.Signature).Results().Len() != 0 {
+			continue
+		}
+		recv := u.Decl.Recv.List[0].Names[0].Name
+		held, releases := "", false
+		ast.Inspect(u.Decl.Body, func(n ast.Node) bool {
+			if call, ok := n.(*ast.CallExpr); ok {
+				if sel, ok := ast.Unparen(call.Fun).(*ast.SelectorExpr); ok {
+					if sel.Sel.Name == "hold" && rootIdent(sel.X) == recv && p.Decl(calleeOf(u.Info(), call)) != nil {
+						held = exprStr(sel.X)
+					}
+					if sel.Sel.Name == "release" {
+						releases = true
+					}
+				}
+			}
+			return true
+		})
+		if held != "" && !releases && u.Fn.Name() != "hold" {
+			wrappers[u.Fn] = holdWrapper{recv, held}
+		}
+	}
+	for _, u := range p.UnitsIn(nfsPkg) {
+		if w, ok := wrappers[u.Fn]; ok {
+			r.ok(constructOf(u, "hold "+w.held), posOf(p, u.Decl), "takes the hold on behalf of its callers (decided there)")
+			continue
+		}
 		info := u.Info()
 		spec := &OblSpec{Name: "cleanup", Min: 1, Max: 1,
 			Create: func(n ast.Node) []Born {
@@ -187,6 +218,10 @@ func c18Cleanup(c *Ctx) *RuleResult {
 						if sel, ok := ast.Unparen(call.Fun).(*ast.SelectorExpr); ok && sel.Sel.Name == "hold" {
 							if fn := calleeOf(info, call); fn != nil && p.Decl(fn) != nil {
 								out = append(out, Born{Key: "hold:" + exprStr(sel.X), Pos: x.Pos(), Tag: "hold"})
+							}
+						} else if ok {
+							if w, isW := wrappers[calleeOf(info, call)]; isW {
+								out = append(out, Born{Key: "hold:" + exprStr(sel.X) + strings.TrimPrefix(w.held, w.recv), Pos: x.Pos(), Tag: "hold"})
 							}
 						}
 					}
